@@ -33,8 +33,9 @@ The ops mirror `Machine.op` (coq/theories/Mut/Machine.v) one to one:
     ["from_dict", ti, p, ITEMS]                        OFromDict   Node.from_dict
     ["tree_from_dict", ITEMS]                          OTreeFromDict  Tree.from_dict
 
-    CALC    null | "name" | "mod7" | {"fn": "hash"|"name"|"mod7", "raise": [d*]}   (calc_data_id callback; raises on the listed data)
-    DID     null | int | str           explicit data_id
+    CALC    null | "name" | "mod7" | {"fn": "hash"|"name"|"mod7", "raise": [d*], "unhashable": [d*]}   (calc_data_id callback; raises on /
+            returns a list for the listed data; either way the machine's id table has no entry and the outcome is ECrash, see outcome_of)
+    DID     null | int | str | {"u": [..]}   explicit data_id; {"u": ..} = a list, i.e. UNHASHABLE (only with data the tree's hook has no id for)
     KIND    null | str                 (dropped for plain trees)
     BEFORE  null | true | false | int | {"n": node}
     DEEP    null | true | false
@@ -139,6 +140,24 @@ def coq_odid(d):
     return "None" if d is None else f"(Some {H.coq_did(d)})"
 
 
+def is_unhashable(did):
+    """DID form {"u": [...]}: an explicit data_id that is a list (unhashable)"""
+    return isinstance(did, dict) and "u" in did
+
+
+def py_did(did):
+    return list(did["u"]) if is_unhashable(did) else did
+
+
+def outcome_of(e):
+    """[1, class] of an exception an op raised.  A data_id the tree cannot use - the `calc_data_id` hook raised, or
+    the hook / the caller supplied an unhashable value (TypeError: unhashable type) - is ONE outcome, ECrash(8),
+    which is what the machine answers when its id table has no entry for the data object."""
+    if isinstance(e, CallbackFault) or (isinstance(e, TypeError) and "unhashable" in str(e)):
+        return [1, 8]
+    return [1, H.err_class(e)]
+
+
 def coq_kind(k):
     return H.coq_opt(k, H.coq_text)
 
@@ -226,15 +245,35 @@ class World:
             spec = {"fn": spec, "raise": []}
         base = {"hash": lambda d: hash(d), "name": lambda d: f"{d}", "mod7": lambda d: hash(d) % 7}[spec["fn"]]
         bad = [self.U.objs[i] for i in spec.get("raise", [])]
+        unh = [self.U.objs[i] for i in spec.get("unhashable", [])]
 
         def fn(tree, data):
             if any(data is b for b in bad):
                 raise CallbackFault("calc_data_id")
+            if any(data is b for b in unh):
+                return [base(data)]          # a list: not usable as a key
             return base(data)
 
         fn.base = base
-        fn.bad = bad
+        fn.bad = bad + unh                   # the machine's id table has no entry for either
         return fn
+
+    def no_id_for(self, ti, d) -> bool:
+        """tree ti's id hook yields no usable id for data object d"""
+        spec = self.calcs[ti] if isinstance(ti, int) and 0 <= ti < len(self.calcs) else None
+        if not isinstance(spec, dict) or d is None:
+            return False
+        return self.dcanon(d) in [self.dcanon(i) for i in spec.get("raise", []) + spec.get("unhashable", [])]
+
+    def coq_explicit(self, ti, d, did) -> str:
+        """Coq `option did` of an explicit data_id.  An unhashable explicit id has no counterpart in the machine's
+        `did`; it is only generated for a data object the tree's hook has no usable id for either, and rendered as
+        'no explicit id': the machine then answers ECrash from its id table, the same outcome (see outcome_of)."""
+        if is_unhashable(did):
+            if not self.no_id_for(ti, d):
+                raise NotLive()
+            return "None"
+        return coq_odid(did)
 
     def coq_calc(self, spec) -> str:
         if spec is None:
@@ -326,15 +365,15 @@ def _items_py(w, items):
     for d, did, ch in items:
         it = {"data": w.dobj(d)}
         if did is not None:
-            it["data_id"] = did
+            it["data_id"] = py_did(did)
         if ch:
             it["children"] = _items_py(w, ch)
         out.append(it)
     return out
 
 
-def _items_coq(w, items):
-    return H.coq_list(f"(DI {w.coq_dat(d)} {coq_odid(did)} {_items_coq(w, ch)})" for d, did, ch in items)
+def _items_coq(w, items, ti=None):
+    return H.coq_list(f"(DI {w.coq_dat(d)} {w.coq_explicit(ti, d, did)} {_items_coq(w, ch, ti)})" for d, did, ch in items)
 
 
 def _call_from_dict(w, fn, items):
@@ -431,10 +470,10 @@ def execute(w: World, op):
             raise NotLive()
         if not typed_of(ti):
             kind = None
-        coq = f"(OAdd {ti} {p} {w.coq_dat(d)} {coq_odid(did)} {coq_kind(kind)} {coq_before(before)})"
+        coq = f"(OAdd {ti} {p} {w.coq_dat(d)} {w.coq_explicit(ti, d, did)} {coq_kind(kind)} {coq_before(before)})"
         kw = {}
         if did is not None:
-            kw["data_id"] = did
+            kw["data_id"] = py_did(did)
         if kind is not None:
             kw["kind"] = kind
         if before is not None:
@@ -451,10 +490,10 @@ def execute(w: World, op):
             kind = None
         hc = {"append_child": "SAppendChild", "prepend_child": "SPrependChild", "prepend_sibling": "SPrependSibling",
               "append_sibling": "SAppendSibling"}[how]
-        coq = f"(OShort {ti} {n} {hc} {w.coq_dat(d)} {coq_odid(did)} {coq_kind(kind)})"
+        coq = f"(OShort {ti} {n} {hc} {w.coq_dat(d)} {w.coq_explicit(ti, d, did)} {coq_kind(kind)})"
         kw = {}
         if did is not None:
-            kw["data_id"] = did
+            kw["data_id"] = py_did(did)
         if kind is not None:
             kw["kind"] = kind
         return (lambda: ret(getattr(nn, how)(w.dobj(d), **kw))), coq, False
@@ -468,6 +507,8 @@ def execute(w: World, op):
             raise NotLive()
         if not typed_of(ti):
             kind = None
+        if is_unhashable(did):
+            raise NotLive()
         coq = (f"(OAddNode {ti} {p} {sti} {src} {coq_odid(did)} {coq_kind(kind)} {coq_before(before)} {coq_obool(deep)})")
         kw = {}
         if did is not None:
@@ -559,7 +600,8 @@ def execute(w: World, op):
             pk = key["id"]
             cf = w.calc_fn(w.calcs[ti])
             try:
-                fb = "(Some " + H.coq_did(hash(pk) if cf is None else cf(t, pk)) + ")"
+                v = hash(pk) if cf is None else cf(t, pk)
+                fb = "(Some " + H.coq_did(v) + ")" if isinstance(v, (int, str)) else "None"    # unhashable answer: unusable
             except CallbackFault:
                 fb = "None"
             coq = f"(ODel {ti} (KDid {H.coq_did(pk)} {fb}))"
@@ -605,8 +647,10 @@ def execute(w: World, op):
     if k == "set_data":
         _, ti, n, d, did, wc = op
         nn = _need(w.live_node(n, ti))
-        coq = (f"(OSetData {ti} {n} {'None' if d is None else '(Some ' + w.coq_dat(d) + ')'} {coq_odid(did)} {coq_obool(wc)})")
-        return (lambda: ret(nn.set_data(None if d is None else w.dobj(d), data_id=did, with_clones=wc))), coq, False
+        if is_unhashable(did) and (d is None or nn._data is w.dobj(d)):
+            raise NotLive()      # only with NEW data the hook has no id for (see World.coq_explicit)
+        coq = (f"(OSetData {ti} {n} {'None' if d is None else '(Some ' + w.coq_dat(d) + ')'} {w.coq_explicit(ti, d, did)} {coq_obool(wc)})")
+        return (lambda: ret(nn.set_data(None if d is None else w.dobj(d), data_id=py_did(did), with_clones=wc))), coq, False
 
     if k == "rename":
         _, ti, n, d = op
@@ -658,7 +702,7 @@ def execute(w: World, op):
     if k == "from_dict":
         _, ti, p, items = op
         pn = _need(w.parent_ref(ti, p))
-        coq = f"(OFromDict {ti} {p} {_items_coq(w, items)})"
+        coq = f"(OFromDict {ti} {p} {_items_coq(w, items, ti)})"
         return (lambda: ret(_call_from_dict(w, pn.from_dict, items))), coq, False
 
     if k == "tree_from_dict":
@@ -743,13 +787,19 @@ def replay(hist, oracles=ALL_ORACLES, keep_world=False, queries=True) -> Run:
         except RecursionError:
             res = [1, 8]
         except Exception as e:  # every op's own failure is an observation
-            res = [1, H.err_class(e)]
-            if isinstance(e, CallbackFault):
-                res = [1, 8]
+            res = outcome_of(e)
         finally:
             sys.setrecursionlimit(_old)
         # a tree object created by a failing op is not part of the world
         after = w.obs()
+        alias_msg = None
+        if queries is True or (queries is not False and queries is not None and si >= queries):
+            run_queries(w)          # query - mutate - query again: the next op meets warmed caches
+            hostile_queries(w)      # ... and whatever the queries handed back is destroyed by the caller
+            after2 = w.obs()
+            if changed(after, after2):
+                alias_msg = (f"alias: after {op[0]} the caller emptied the lists / dicts returned by find_all, get_clones, "
+                             "get_siblings, get_parent_list, to_dict(_list) and the TREE changed: a query handed out internal state")
         step = dict(op=op, res=res, before=before, after=after, new_ids=list(range(alloc0 + 1, w.allocated() + 1)),
                     new_trees=list(range(ntrees0, len(w.trees))), coq=coq)
         run.obs.append([res, after])
@@ -775,8 +825,9 @@ def replay(hist, oracles=ALL_ORACLES, keep_world=False, queries=True) -> Run:
                 msg = f"{name}: the state after {op[0]} cannot be examined: {type(e).__name__}: {str(e)[:120]}"
             if msg:
                 run.fails.append((si, name, msg))
-        if queries is True or (queries is not False and queries is not None and si >= queries):
-            run_queries(w)          # query - mutate - query again: the next op meets warmed caches
+        if alias_msg:
+            run.fails.append((si, "effect" if "effect" in oracles or not oracles else oracles[0], alias_msg))
+            after = after2          # the next step starts from what the tree really is
         before = after
     if keep_world:
         run.world = w
@@ -811,6 +862,43 @@ def run_queries(w):
                 for c in calls:
                     try:
                         c()
+                    except Exception:
+                        pass
+            except Exception:
+                pass
+    finally:
+        sys.setrecursionlimit(_old)
+
+
+def hostile_queries(w, limit=6):
+    """Ask the lookups / clone queries / navigation lists and DESTROY what comes back (del r[:], dict.clear()):
+    a result is the caller's object; if it is internal state of the tree (the clone list of the index, ...)
+    the next observation, the invariants and a duplicate-add probe show it.  `children` / `get_children` /
+    `get_siblings(add_self=True)` / `meta` are documented to hand out the live object and are left alone."""
+    _old = sys.getrecursionlimit()
+    sys.setrecursionlimit(OP_RECURSION_LIMIT)
+    try:
+        for t in w.trees:
+            try:
+                order, probs = _reach(t)
+                if probs or len(order) > 200:
+                    continue
+                pick = order[:limit // 2] + order[-(limit - limit // 2):] if len(order) > limit else order
+                calls = [lambda: t.find_all(match=".*"), lambda: t.to_dict_list(), lambda: t.find_all(match=lambda n: True, max_results=2)]
+                for n in pick:
+                    calls += [lambda n=n: t.find_all(data_id=n.data_id), lambda n=n: t.find_all(n.data),
+                              lambda n=n: t.find_all(data_id=n.data_id, max_results=5),
+                              lambda n=n: n.get_clones(), lambda n=n: n.get_clones(add_self=True),
+                              lambda n=n: n.find_all(data_id=n.data_id, add_self=True), lambda n=n: n.find_all(n.data),
+                              lambda n=n: n.get_siblings(add_self=False), lambda n=n: n.get_parent_list(),
+                              lambda n=n: n.get_parent_list(add_self=True), lambda n=n: n.to_dict()]
+                for c in calls:
+                    try:
+                        r = c()
+                        if isinstance(r, list):
+                            del r[:]
+                        elif isinstance(r, dict):
+                            r.clear()
                     except Exception:
                         pass
             except Exception:
@@ -1060,6 +1148,11 @@ class Gen:
     def pick_tree(self):
         return self.rng.randrange(len(self.w.trees))
 
+    def bad_data(self, ti):
+        """data objects tree ti's id hook raises for / answers an unhashable value for"""
+        spec = self.w.calcs[ti]
+        return (spec.get("raise", []) + spec.get("unhashable", [])) if isinstance(spec, dict) else []
+
     def any_node(self, ti, root=True):
         ids = live_ids(self.w, ti)
         if root:
@@ -1085,7 +1178,7 @@ class Gen:
         w = self.w
         names = self.allowed or ["add"] * 5 + ["short"] * 3 + ["addnode"] * 2 + ["move"] * 4 + ["remove"] * 3 + [
             "remove_children", "sort", "sort", "set_data", "set_data", "rename", "meta", "meta", "copyto", "addtree", "treecopy",
-            "nodecopy", "clear", "del", "filter", "from_dict", "repeat", "repeat", "repeat"]
+            "nodecopy", "clear", "del", "filter", "from_dict", "repeat", "repeat", "repeat", "dupadd", "dupadd", "spread", "spread"]
         k = rng.choice(names)
         if k == "repeat":
             return self.repeat_step()
@@ -1096,7 +1189,27 @@ class Gen:
         kind = rng.choice(KINDS + [None]) if typed else None
         if k == "add":
             p = self.any_node(ti)
-            return self.do(["add", ti, p, rng.randrange(nd), rng.choice(DIDS), kind, self.before_arg(ti, p)])
+            d = rng.randrange(nd)
+            did = rng.choice(DIDS)
+            bad = self.bad_data(ti)
+            if bad and rng.random() < 0.3:       # data the tree's hook has no usable id for, maybe with an unhashable explicit id
+                d = rng.choice(bad)
+                did = rng.choice([None, {"u": [1]}])
+            return self.do(["add", ti, p, d, did, kind, self.before_arg(ti, p)])
+        if k == "dupadd":                        # probe: the data (and id) of an existing child again under its parent
+            if not ids:
+                return
+            n = w.live_node(rng.choice(ids), ti)
+            did = n._data_id if isinstance(n._data_id, str) else None
+            return self.do(["add", ti, w.rel(n._parent), w.U.index(n._data), did, kind, rng.choice([None, True])])
+        if k == "spread":                        # grow a clone group: the same data (and id) under other parents
+            if not ids:
+                return
+            n = w.live_node(rng.choice(ids), ti)
+            did = n._data_id if isinstance(n._data_id, str) else None
+            for _ in range(rng.randint(1, 3)):
+                self.do(["add", ti, self.any_node(ti), w.U.index(n._data), did, kind, None])
+            return
         if k == "short":
             how = rng.choice(["append_child", "prepend_child", "prepend_sibling", "append_sibling"])
             n = self.any_node(ti, root=how.endswith("child"))
@@ -1187,7 +1300,16 @@ class Gen:
                 return
             d = rng.choice([None] + list(range(nd)))
             did = rng.choice([None, None, "X1", "X2", 5, 0, ""])
-            return self.do(["set_data", ti, rng.choice(ids), d, did, rng.choice([None, True, False])])
+            bad = self.bad_data(ti)
+            if bad and rng.random() < 0.3:
+                d = rng.choice(bad)
+                did = rng.choice([None, None, {"u": [1]}])
+            n = rng.choice(ids)
+            if rng.random() < 0.3:               # prefer a member of a big clone group
+                big = [w.rel(x) for x in tree_nodes(w.trees[ti]) if len(w.trees[ti]._nodes_by_data_id.get(x._data_id, ())) >= 3]
+                if big:
+                    n = rng.choice(big)
+            return self.do(["set_data", ti, n, d, did, rng.choice([None, True, True, False])])
         if k == "rename":
             if not ids:
                 return
@@ -1226,8 +1348,9 @@ def gen_random(rng, n_ops=30, *, malformed=False, univ=None, ntrees=None, ops=No
     for i in range(ntrees):
         typed = rng.random() < 0.3
         calc = rng.choice([None, None, None, "name", "mod7"])
-        if malformed and rng.random() < 0.3:
-            calc = {"fn": rng.choice(["hash", "name"]), "raise": [rng.randrange(len(g.univ))]}
+        if rng.random() < (0.4 if malformed else 0.2):
+            k1, k2 = rng.sample(range(len(g.univ)), 2)
+            calc = {"fn": rng.choice(["hash", "name"]), "raise": [k1], "unhashable": [k2]}
         g.do(["new", typed, calc])
     # a few nodes first, so that the interesting ops have something to work on
     for _ in range(rng.randint(2, 8)):
@@ -1470,6 +1593,62 @@ def gen_sort_triples(nmax=3, *, quick=True):
                 yield {"univ": univ, "ops": ops}
 
 
+def gen_refusal_group(families=None):
+    """One tree whose `calc_data_id` hook RAISES for one data object and returns an UNHASHABLE value for another
+    (plus unhashable explicit ids): every add / shortcut / set_data / rename / from_dict / del that meets such an id.
+    All of them must be refused with nothing changed (count = reachable, indexes exact)."""
+    univ = ["s:a", "s:b", "s:c", "s:r", "s:u", "s:new"]
+    R, U, NEW = 3, 4, 5
+    setup = [["new", False, {"fn": "name", "raise": [R], "unhashable": [U]}],
+             ["add", 0, 0, 0, None, None, None], ["add", 0, 1, 1, None, None, None], ["add", 0, 0, 2, None, None, None],
+             ["add", 0, 3, 0, None, None, None]]            # nodes 1 a, 2 b (under 1), 3 c, 4 a (under 3): a is a clone pair
+    alts = []
+    for d in (R, U):
+        for did in (None, {"u": [1]}):
+            for p in (0, 2):
+                for b in (None, True):
+                    alts.append(["add", 0, p, d, did, None, b])
+            for n in (1, 2, 4):
+                for wc in (None, True, False):
+                    alts.append(["set_data", 0, n, d, did, wc])
+        for n in (1, 2):
+            for how in ("append_child", "prepend_child", "prepend_sibling", "append_sibling"):
+                alts.append(["short", 0, n, how, d, None, None])
+        for n in (1, 2, 3, 4):
+            alts.append(["rename", 0, n, d])
+        alts.append(["del", 0, {"d": d}])
+    alts += [["from_dict", 0, 2, [[NEW, None, []], [R, None, []]]], ["from_dict", 0, 2, [[U, None, []]]],
+             ["from_dict", 0, 2, [[NEW, None, [[U, {"u": [2]}, []]]]]], ["from_dict", 0, 2, [[NEW, "X", []], [U, None, []], [1, None, []]]],
+             ["from_dict", 0, 4, [[R, {"u": [3]}, []]]]]
+    alts = [a for a in alts if families is None or a[0] in families]
+    if alts:
+        yield dict(univ=univ, setup=setup, alts=alts, label="refusals", n=4)
+
+
+def gen_clone_group(families=None):
+    """Clone groups of 4 (one data object under four parents) and 3 (equal-but-distinct objects under one explicit
+    id): every with_clones operation on members at the start / middle / end of the group."""
+    univ = ["s:a", "s:p", "s:q", "s:r", "s:s", "s:new", "e:1", "e:1", "e:1"]
+    NEW = 5
+    setup = [["new", False, None]] + [["add", 0, 0, i, None, None, None] for i in (1, 2, 3, 4)]
+    setup += [["add", 0, p, 0, None, None, None] for p in (1, 2, 3, 4)]                       # 5 6 7 8: four clones of a
+    setup += [["add", 0, p, 5 + p, "E", None, None] for p in (1, 2, 3)]                       # 9 10 11: three clones by id
+    alts = []
+    for n in (5, 7, 8, 9, 11):
+        for d, did in ((NEW, None), (None, "N"), (NEW, "N"), (None, "E"), (6, None)):
+            for wc in (True, False, None):
+                alts.append(["set_data", 0, n, d, did, wc])
+    for n in (5, 8, 9, 10):
+        for keep in (False, True):
+            for wc in (True, False):
+                alts.append(["remove", 0, n, keep, wc])
+    alts += [["rename", 0, 5, NEW], ["del", 0, {"d": 0}], ["del", 0, {"id": "E"}], ["add", 0, 0, 0, None, None, None],
+             ["add", 0, 1, 0, None, None, None], ["add", 0, 4, 8, "E", None, None], ["add", 0, 1, 8, "E", None, None]]
+    alts = [a for a in alts if families is None or a[0] in families]
+    if alts:
+        yield dict(univ=univ, setup=setup, alts=alts, label="clone-groups", n=11)
+
+
 def gen_exhaustive(nmax, *, labelings=("distinct", "equal", "clones"), typed=(False,), families=None, nmin=0):
     """Yields groups dict(univ=, setup=[ops], alts=[op*]): every single op with every argument
     on every ordered forest with nmin..nmax nodes."""
@@ -1487,6 +1666,10 @@ def gen_exhaustive(nmax, *, labelings=("distinct", "equal", "clones"), typed=(Fa
                         if any(s["res"][0] for s in r.steps):
                             continue
                     yield dict(univ=univ, setup=setup, alts=single_ops(nodes, univ, ty, families), label=lname, n=n)
+    if nmin == 0 and tuple(typed) == (False,):
+        # once per property: ids the tree cannot use (raising / unhashable hook, unhashable explicit id), clone groups of 3-4
+        yield from gen_refusal_group(families)
+        yield from gen_clone_group(families)
 
 
 # ---------------------------------------------------------------------------
@@ -1611,6 +1794,7 @@ def renumber(op, dropped):
 # Minimal witnesses of repaired defects (each fails an oracle on the unchanged code)
 # ---------------------------------------------------------------------------
 CORPUS: list = [
+ {"id": "R-unusable-id", "univ": ["s:a", "s:b", "s:r", "s:u", "s:new"], "ops": [["new", False, {"fn": "name", "raise": [2], "unhashable": [3]}], ["add", 0, 0, 0, None, None, None], ["add", 0, 0, 3, None, None, None], ["add", 0, 0, 1, None, None, None], ["add", 0, 1, 3, {"u": [1]}, None, True], ["add", 0, 1, 0, None, None, None], ["add", 0, 3, 0, None, None, None], ["set_data", 0, 1, 3, None, True], ["set_data", 0, 1, 2, None, True], ["set_data", 0, 1, 4, None, True], ["add", 0, 0, 0, None, None, None], ["from_dict", 0, 6, [[4, "Y", []], [3, None, []]]], ["from_dict", 0, 6, [[4, "Y", []]]], ["remove", 0, 5, False, True], ["add", 0, 0, 2, None, None, None], ["add", 0, 0, 4, "Z", None, None]]},
  {"id": "R-meta-alias", "univ": ["s:a", "s:b", "s:c"], "ops": [["new", False, None], ["add", 0, 0, 0, None, None, None], ["add", 0, 0, 1, None, None, None], ["add", 0, 1, 2, None, None, None], ["meta", 0, 1, ["update", {"z": 1}, False]], ["meta", 0, 2, ["update", {"z": 1}, False]], ["meta", 0, 1, ["set", "k", 1]], ["meta", 0, 2, ["clear", "z"]], ["meta", 0, 3, ["update", {"z": 1}, True]], ["meta", 0, 3, ["set", "z", 5]], ["meta", 0, 1, ["update", {"q": 2}, False]], ["meta", 0, 2, ["update", {"z": 1}, True]]]},
  {"id": "D03b", "univ": ["s:a", "s:b", "s:c"], "ops": [["new", False, None], ["add", 0, 0, 0, None, None, None], ["add", 0, 1, 1, None, None, None], ["add", 0, 2, 0, None, None, None], ["add", 0, 0, 2, None, None, None], ["add", 0, 4, 0, None, None, None], ["remove", 0, 5, False, True]]},
  {"id": "R-meta", "univ": ["s:a"], "ops": [["new", False, None], ["add", 0, 0, 0, None, None, None], ["meta", 0, 1, ["set", "k", 1]], ["meta", 0, 1, ["set", "", 2]], ["meta", 0, 1, ["clear", ""]], ["meta", 0, 1, ["update", {}, True]], ["meta", 0, 1, ["update", {"z": 1}, False]], ["meta", 0, 1, ["set", "z", None]]]},
